@@ -702,6 +702,44 @@ func runC05Proc(c *fw.Case) {
 		c.HarnessError("%v", err)
 		return
 	}
+	// the same archive unpacked into a GNU tar file instead of a directory
+	if !cut && !noTime && c.ChanceAdded(1, 3, "cli.gnutar-out") {
+		tarOut := filepath.Join(c.Dir(), "out.tar")
+		gargs := append(append([]string{}, pre...), "untar")
+		if useIndex {
+			gargs = append(gargs, "-i", "-s", storeDir)
+		}
+		gargs = append(gargs, "--output-format", "gnu-tar", archive, tarOut)
+		gexit, _, _, err := runDesync(gargs...)
+		if err != nil {
+			c.HarnessError("%v", err)
+			return
+		}
+		c.SubEval(1)
+		if gexit == 0 {
+			tb, _ := os.ReadFile(tarOut)
+			gt, perr := parseGnuTar(tb)
+			if perr != nil {
+				c.Violate("gnu-tar-unreadable", "desync untar --output-format gnu-tar", "`desync %s` exits 0: %v", strings.Join(gargs, " "), perr)
+				return
+			}
+			for _, e := range want {
+				if e.Type == "file" && e.Content == nil {
+					e.Content = []byte{}
+				}
+			}
+			gi := map[string]bool{"xattr": true, "mtime-subsecond": true}
+			for k, v := range ignore {
+				gi[k] = v
+			}
+			if cat, d := diffTrees(want, gt, gi); cat != "" {
+				c.Violate("tree-differs", "gnu-tar-out/"+cat, "%s", d)
+				return
+			}
+		} else {
+			c.Probe("gnu-tar-refused (process level)")
+		}
+	}
 	if noOwner {
 		for p, e := range got {
 			if e.UID != 0 || e.GID != 0 {
@@ -2360,8 +2398,15 @@ func runC19Proc(c *fw.Case) {
 		case k == 2 && len(offs) > 0:
 			o := offs[c.Draw(len(offs), "type.at")]
 			types := []uint64{desync.CaFormatEntry, desync.CaFormatXAttr, desync.CaFormatFilename, desync.CaFormatSymlink, desync.CaFormatDevice, desync.CaFormatPayload, desync.CaFormatGoodbye, desync.CaFormatIndex, desync.CaFormatTable, 0x1234}
-			binary.LittleEndian.PutUint64(b[o+8:], types[c.Draw(len(types), "type.val")])
-			what = fmt.Sprintf("type field at offset %d replaced", o)
+			types = append(types, desync.CaFormatUser, desync.CaFormatGroup, desync.CaFormatACLUser, desync.CaFormatACLGroup, desync.CaFormatACLGroupObj, desync.CaFormatACLDefault, desync.CaFormatACLDefaultUser, desync.CaFormatACLDefaultGroup, desync.CaFormatFCaps, desync.CaFormatSELinux)
+			t := types[c.Draw(len(types), "type.val")]
+			binary.LittleEndian.PutUint64(b[o+8:], t)
+			what = fmt.Sprintf("type field at offset %d replaced by %x", o, t)
+			if c.Bool("type.size") {
+				v := []uint64{16, 17, 24, 25, 31, 32, 33, 39, 40, 41, 47, 48, 49, 56, 63, 64, 65, 72}[c.Draw(18, "type.size.val")]
+				binary.LittleEndian.PutUint64(b[o:], v)
+				what += fmt.Sprintf(" and its size set to %d", v)
+			}
 			c.Fault("type-field")
 		default:
 			if len(b) == 0 {
